@@ -1080,6 +1080,7 @@ Qed.
 (* concrete texts (tests of the definitions, and witnesses that the hypotheses are satisfiable) *)
 
 Ltac ch := unfold addr_ch, word_ch, digit_ch; lia.
+Ltac fa := repeat (apply Forall_cons; [ch|]); apply Forall_nil.
 
 (* "a@b.c@d.e": two overlapping addresses, a@b.c at [0,5) and b.c@d.e at [2,9), the '@' at 1 and 5 *)
 Definition ex_overlap : bytes := [97;64;98;46;99;64;100;46;101]%N.
@@ -1104,7 +1105,7 @@ Proof.
   exists [97;64]%N, [98;46;99]%N, [100;46;101]%N, [].
   split; [reflexivity|]. split; [reflexivity|]. split; [reflexivity|]. split; [reflexivity|].
   split; [right; exists [97%N], 64%N; split; [reflexivity|]; split; ch|].
-  split; [exists [98;46]%N, 99%N; split; [reflexivity|]; split; [repeat constructor; ch | ch]|].
+  split; [exists [98;46]%N, 99%N; split; [reflexivity|]; split; [fa | ch]|].
   split.
   - apply (dom_dotted [100%N] 101%N [] []).
     + exists 100%N, []. split; [reflexivity|]. split; [ch | constructor].
@@ -1126,12 +1127,12 @@ Proof.
   exists [], [98;111;98]%N, [49;54;51;46;99;111;109;95;50;48;50;52]%N, [].
   split; [reflexivity|]. split; [reflexivity|]. split; [reflexivity|]. split; [reflexivity|].
   split; [left; reflexivity|].
-  split; [exists [98;111]%N, 98%N; split; [reflexivity|]; split; [repeat constructor; ch | ch]|].
+  split; [exists [98;111]%N, 98%N; split; [reflexivity|]; split; [fa | ch]|].
   split.
   - apply (dom_dotted [49;54;51]%N 99%N [111;109;95;50;48;50;52]%N []).
-    + exists 49%N, [54;51]%N. split; [reflexivity|]. split; [ch | repeat constructor; ch].
+    + exists 49%N, [54;51]%N. split; [reflexivity|]. split; [ch | fa].
     + ch.
-    + repeat constructor; ch.
+    + fa.
     + exact I.
   - intros [_ [HF _]]. do 4 (inversion HF as [|? ? _ HF']; subst; clear HF; rename HF' into HF).
     inversion HF as [|? ? H1 _]; subst. destruct H1; revert H; ch.
